@@ -41,19 +41,15 @@ def dispatch_always_decodes(ctx, rule, exempt=()):
     pf = ctx.anchor('asefile::parse::parse_frame')
     if pf is None:
         return
-    sws = [s for s in q.switches_on(pf, lambda d: d[0] == 'discr') if 'OldPalette04' in _c10.switch_variants(pf, s).values()]
-    if len(sws) != 1:
-        ctx.fail(pf.name + '|%s|no-dispatch' % rule, 'no single ChunkType match in parse_frame')
+    arms = common.dispatch_arms(pf)
+    if arms is None:
+        ctx.fail(pf.name + '|%s|no-dispatch' % rule, 'no ChunkType dispatch found in parse_frame')
         return
-    sw = sws[0]
-    names = _c10.switch_variants(pf, sw)
     errb = q.error_blocks(pf)
     n = 0
-    for v, s in pf.blocks[sw]['term']['targets']:
-        kind = names.get(v)
+    for kind, s, reg, sw in arms:
         if kind not in DISPATCH or kind in CONDITIONAL_BY_DESIGN or kind in exempt:
             continue
-        reg = q.edge_region(pf, sw, s)
         decs = [c for c in q.calls(pf) if c.bb in reg and q.callee_name(c) == DISPATCH[kind]]
         if len(decs) != 1:
             continue        # reported by the dispatch rule
@@ -150,6 +146,7 @@ def run(ctx):
             ngt += layout.check_getters(ctx, spec, sname)
             done.add(sname)
     ctx.floor('stored-field bindings', nst, 55)
+    layout.tile_words(ctx, 'L2')
     ctx.floor('getter bindings', ngt, 23)
 
     # ---------------- O1: nothing reorders the ordered collections
@@ -281,18 +278,13 @@ def run(ctx):
     dispatch_always_decodes(ctx, 'O3', exempt=('Tags',))
     if pf is not None:
         import C10 as _c10
-        sws = [s for s in q.switches_on(pf, lambda d: d[0] == 'discr') if 'OldPalette04' in _c10.switch_variants(pf, s).values()]
-        if len(sws) == 1:
-            sw = sws[0]
-            names = _c10.switch_variants(pf, sw)
-            tm = pf.blocks[sw]['term']
-            d = q.switch_cond(pf, sw)
+        arms = common.dispatch_arms(pf)
+        if arms is not None:
             n = 0
-            for v, s in tm['targets']:
-                kind = names.get(v)
+            for kind, s, reg, sw in arms:
+                d = q.switch_cond(pf, sw)
                 if kind not in DISPATCH:
                     continue
-                reg = q.edge_region(pf, sw, s)
                 decs = [c for c in q.calls(pf) if c.bb in reg and q.callee_name(c) in DISPATCH.values()]
                 ok = len(decs) == 1 and q.callee_name(decs[0]) == DISPATCH[kind]
                 detail = [q.callee_name(c) for c in decs]
@@ -308,7 +300,7 @@ def run(ctx):
                          pf.blocks[s]['term'].get('span'), key='%s|O3|%s' % (pf.name, kind))
             ctx.floor('decoded chunk kinds dispatched', n, 11)
         else:
-            ctx.fail(pf.name + '|O3|no-dispatch', 'no single ChunkType match in parse_frame')
+            ctx.fail(pf.name + '|O3|no-dispatch', 'no ChunkType dispatch found in parse_frame')
     cr = ctx.anchor('asefile::parse::Chunk::read')
     if cr is not None:
         for bb, st, t in q.stmt_aggs(cr, 'asefile::parse::Chunk'):
